@@ -2415,7 +2415,9 @@ class Array:
             self._qdata = np.empty((0, self.rank), np.intp)
             self._qdata_sorted = True
             return self
-        return self.iunary_blockwise(np.multiply, prefactor)
+        self.iunary_blockwise(np.multiply, prefactor)
+        self.dtype = np.result_type(self.dtype, prefactor)  # also if there are no blocks, as in the Cython version
+        return self
 
     def __add__(self, other):
         """Return ``self + other``."""
